@@ -4,9 +4,11 @@ EXTENDS WsSend
 
 CONSTANT ProgSel
 
-D(size, ovr) == [op |-> "data", size |-> size, ovr |-> ovr]
-Ping == [op |-> "ping", size |-> "small", ovr |-> FALSE]
-Close == [op |-> "close", size |-> "small", ovr |-> FALSE]
+D(size, ovr) == [op |-> "data", size |-> size, ovr |-> ovr, buf |-> 0]
+DB(size, ovr, b) == [op |-> "data", size |-> size, ovr |-> ovr, buf |-> b]     \* from the caller's mutable buffer b
+Ping == [op |-> "ping", size |-> "small", ovr |-> FALSE, buf |-> 0]
+PingB(b) == [op |-> "ping", size |-> "small", ovr |-> FALSE, buf |-> b]
+Close == [op |-> "close", size |-> "small", ovr |-> FALSE, buf |-> 0]
 
 ProgDef ==
     CASE ProgSel = "mix3" ->
@@ -21,6 +23,10 @@ ProgDef ==
             [s \in Senders |-> CASE s = "a" -> <<D("small", FALSE), D("large", FALSE)>>
                                  [] s = "b" -> <<D("small", TRUE), D("small", FALSE)>>
                                  [] OTHER -> <<D("small", FALSE), D("small", TRUE)>>]
+      [] ProgSel = "rebuf" ->    \* the same mutable buffer sent twice (data and ping)
+            [s \in Senders |-> CASE s = "a" -> <<DB("small", FALSE, 1), DB("small", FALSE, 1)>>
+                                 [] s = "b" -> <<DB("large", FALSE, 2), D("small", FALSE)>>
+                                 [] OTHER -> <<PingB(3), PingB(3)>>]
       [] ProgSel = "close" ->
             [s \in Senders |-> CASE s = "a" -> <<D("large", FALSE), D("small", FALSE)>>
                                  [] s = "b" -> <<Close, D("small", FALSE)>>
